@@ -659,6 +659,33 @@ def r4_packet(program, folder, rep):
         if m is not None:
             okw = const(m["f"]) == "!I" and const(m["g"]) == "<I"
             okc = len(ps) > 5 and m["w"] == ("param", ps[5])
+    matched = okw or okc or elem is None
+    if elem is not None and not okw:
+        # word[::-1]: the four bytes of each word in reverse order
+        pe = plain(elem)
+        N_ = ("const", None)
+        m = match(("item", V("w"), ("slice", N_, N_, ("const", -1))), pe)
+        if m is not None:
+            matched = True
+            WORD = None
+            w_ = m["w"]
+            # (bytes(x) / memoryview(x) / bytearray(x) hold the same bytes)
+            while w_[0] in ("call", "callv") and w_[1] in (
+                    ("global", "bytes"), ("global", "memoryview"),
+                    ("global", "bytearray")) and len(w_[2]) == 1:
+                w_ = w_[2][0]
+            for st_ in subterms(elem):
+                if plain(st_) == w_:
+                    WORD = st_
+            data = ("param", ps[5]) if len(ps) > 5 else None
+            okw = okc = WORD is not None and data is not None and \
+                chunked(WORD, data, 4, const)
+    if elem is not None and not matched and not any(
+            st_[0] == "call" and st_[1] == PACK for st_ in subterms(
+                plain(elem))):
+        raise AnalysisError("boot_packet: the words of the payload are not "
+                            "swapped by struct.pack / a reversed slice; "
+                            "that form is not analysed")
     if elem is None:
         # the bulk form: all words unpacked at once and packed back
         pb = plain(body)
